@@ -1128,6 +1128,7 @@ def canon_model(kind, v):
         return ("CSR", nr, nc, list(ip), list(ix), [tuple(x) for x in data])
     if kind == "A":
         nr, nc, diags = v
+        diags = diags or []
         return ("Dia", nr, nc, [(o, [tuple(x) for x in row]) for o, row in diags])
     # Coq prints ((a, b, c, d), (e, ...)) as (a, b, c, d, (e, ...))
     if kind == "DD":
@@ -1191,6 +1192,17 @@ def build_kernels(D):
     K.append(("add_dense", ["Dense", "Dense"], scal,
               lambda a, e: raw(_add.add_dense(a[0], a[1], complex(*e[0]))),
               lambda c, e: "vO vD (G_add_dense %s %s %s)" % (c[0], c[1], cG(e[0])), "optD"))
+    def real_iadd(a, e):
+        x = a[0].copy()
+        out = _add.iadd_dense(x, a[1], complex(*e[0]))
+        if out is not x:
+            raise AssertionError("iadd_dense did not return its left operand")
+        return raw(x)
+    K.append(("iadd_dense", ["Dense", "Dense"], scal, real_iadd,
+              lambda c, e: "vO vD (G_iadd_dense %s %s %s)" % (c[0], c[1], cG(e[0])), "optD"))
+    K.append(("sub_dense", ["Dense", "Dense"], None,
+              lambda a, e: raw(_add.sub_dense(a[0], a[1])),
+              lambda c, e: "vO vD (G_add_dense %s %s (-1, 0))" % (c[0], c[1]), "optD"))
     K.append(("add_csr", ["CSR", "CSR"], scal,
               lambda a, e: raw(_add.add_csr(a[0], a[1], complex(*e[0]))),
               lambda c, e: "vO vC (G_add_csr %s %s %s)" % (c[0], c[1], cG(e[0])), "optC"))
@@ -1253,6 +1265,18 @@ def build_kernels(D):
               lambda a, e: raw(_mm.matmul_csr_dense_dense(a[0], a[1], complex(*e[0]), a[2].copy())),
               lambda c, e: "vO vD (G_matmul_csr_dense %s %s %s (Some %s))" % (
                   c[0], c[1], cG(e[0]), c[2]), "optD"))
+    K.append(("add_dia", ["Dia", "Dia"], scal,
+              lambda a, e: raw(_add.add_dia(a[0], a[1], complex(*e[0]))),
+              lambda c, e: "vO vA (G_add_dia %s %s %s)" % (c[0], c[1], cG(e[0])), "optA"))
+    K.append(("clean_dia", ["Dia"], None,
+              lambda a, e: raw(_dia.clean_dia(a[0])),
+              lambda c, e: "vA (G_clean_dia %s)" % c[0], "A"))
+
+    def tol1(rng):
+        return (rng.choice([1, 2, 3]),)
+    K.append(("tidyup_dia", ["Dia"], tol1,
+              lambda a, e: raw(_tidy.tidyup_dia(a[0].copy(), e[0] - 0.5, True)),
+              lambda c, e: "vA (G_tidyup_dia %s %s)" % (cz(e[0]), c[0]), "A"))
     K.append(("dia.from_csr", ["CSR"], None,
               lambda a, e: raw(_dia.from_csr(a[0])),
               lambda c, e: "vA (G_dia_from_csr %s)" % c[0], "A"))
@@ -1319,10 +1343,11 @@ def correspondence(ctx, D, rng, ncases):
     dk = dist.setdefault("corr_kernel", {})
     dv = dist.setdefault("corr_variant", {})
     weight = {"add_csr": 6, "isequal_dia": 3, "reshape_csr": 6, "reshape_dense": 2,
-              "column_stack_csr": 2, "kron_csr": 3, "dia.from_csr": 3, "matmul_csr": 6,
+              "column_stack_csr": 2, "kron_csr": 3, "dia.from_csr": 3, "add_dia": 6, "clean_dia": 2,
+              "tidyup_dia": 2, "matmul_csr": 6,
               "matmul_csr_dense_dense": 3, "matmul_csr_dense_dense[out]": 4,
               "inner_csr": 3, "inner_op_csr": 3, "inner_op_data[csr]": 2, "expect_csr": 4,
-              "expect_data[csr,ket]": 2, "expect_super_csr": 3, "csr.from_dense": 2, "csr.from_dia": 2, "add_dense": 2,
+              "expect_data[csr,ket]": 2, "expect_super_csr": 3, "csr.from_dense": 2, "csr.from_dia": 2, "add_dense": 3, "iadd_dense": 4,
               "dia.from_dense[auto_tidyup=False]": 2}
     K = [k for k in K for _ in range(weight.get(k[0], 1))]
     for it in range(ncases):
